@@ -95,6 +95,10 @@ type (
 		ClientTransformHelpers []*codegen.TransformFunctionData
 		// Scope initialized with all the server and client types.
 		Scope *codegen.NameScope
+		// clientBodyInits records the names of the client request body
+		// constructors together with their payload and body types so
+		// that two different constructors never share one name.
+		clientBodyInits map[string]string
 	}
 
 	// EndpointData contains the data used to render the code related to a
@@ -2022,6 +2026,24 @@ func buildRequestBodyType(body, att *expr.AttributeExpr, e *expr.HTTPEndpointExp
 		)
 		{
 			name = fmt.Sprintf("New%s", codegen.Goify(sd.Scope.GoTypeName(body), true))
+			// The name is computed from the Go type reference of the body:
+			// different collection types may produce the same identifier
+			// (e.g. map[string]*T and map[string][]*T) and the same body
+			// type may be built from different payload types (Body("attr")).
+			// Endpoints with the same payload and body types share a
+			// constructor, other endpoints must not.
+			if sd.clientBodyInits == nil {
+				sd.clientBodyInits = make(map[string]string)
+			}
+			sig := svc.Scope.GoFullTypeRef(att, pkg) + " -> " + ref
+			for i, base := 2, name; ; i++ {
+				s, ok := sd.clientBodyInits[name]
+				if !ok || s == sig {
+					break
+				}
+				name = fmt.Sprintf("%s%d", base, i)
+			}
+			sd.clientBodyInits[name] = sig
 			desc = fmt.Sprintf("%s builds the HTTP request body from the payload of the %q endpoint of the %q service.",
 				name, e.Name(), svc.Name)
 			src := sourceVar
